@@ -181,6 +181,8 @@ def run(ctx, R, tier):
     hk = ctx.fn("Pyro5.server.Daemon._housekeeping")
     hcfg = ctx.cfg(hk)
     hd = [st for st, t, k in stores_in(hk.node) if k == "del" and isinstance(t, ast.Subscript) and tbl_expr(t.value)]
+    # removal spelled as table.pop(key[, default])
+    hd += [enclosing_stmt(c) for c in walk_no_nested(hk.node) if isinstance(c, ast.Call) and isinstance(c.func, ast.Attribute) and c.func.attr == "pop" and tbl_expr(c.func.value)]
     if not hd:
         raise AnalysisError("_housekeeping: no expiry delete left")
     hrd = ctx.rd(hk)
@@ -230,6 +232,12 @@ def run(ctx, R, tier):
         R.check(bool(which) and locked, "C10-R5", "_housekeeping|delete#%d" % i,
                 "the delete happens only when a measured period exceeds the configured %s, under the housekeeper lock" % ("/".join(which) or "limit"), hk.loc(st),
                 "a stream can be dropped by housekeeping without its lifetime/linger period having passed (or outside the lock)")
+    # the expiry pass runs in the housekeeper thread (thread server) / in the event loop (multiplex): nothing in it may raise - in particular it does not call into the
+    # user's iterators (closing a generator that is executing in a worker at that moment raises ValueError) - or no stream is ever forgotten again
+    hk_esc = ctx.escape.escapes(hk.qualname)
+    R.check(not hk_esc, "C10-R5", "_housekeeping|cannot-fail", "nothing that can raise runs in the expiry pass (no call into user iterators)", hk.loc(),
+            "; ".join("%s via %s" % (k[0].split(".")[-1], " -> ".join(w)[-160:]) for k, w in list(hk_esc.items())[:2]) +
+            ": an exception ends the housekeeper thread (or the multiplex loop) - expired and abandoned streams are then kept for ever and a client coming back late still gets items")
     from .common import config_env_value_stored_as_converted
     config_env_value_stored_as_converted(ctx, R, "C10-R5", "ITER_STREAM_LINGER=0 (drop streams with their connection) and ITER_STREAMING=off are settings of this kind")
     R.check(covered == {"ITER_STREAM_LIFETIME", "ITER_STREAM_LINGER"}, "C10-R5", "_housekeeping|both-expiries", "both the lifetime and the linger expiry are applied", hk.loc(),
@@ -271,6 +279,24 @@ def run(ctx, R, tier):
     R.check(ok, "C10-R6", "__next__|drops-proxy-on-exhaustion", "only exhaustion (StopIteration/GeneratorExit) detaches the iterator from its proxy, and it re-raises", nx.loc(),
             "the client iterator detaches on other errors too (a transient communication error then ends the stream silently: the next fetch raises StopIteration), "
             "or keeps its proxy after exhaustion")
+    # fetching an item is not idempotent (the server's iterator has moved on): one __next__ sends one get_next_stream_item and a lost reply surfaces as the error it is -
+    # no retry loop around the fetch, no handler of connection errors that tries again
+    fetches = [c for c in walk_no_nested(nx.node) if isinstance(c, ast.Call) and any(isinstance(a, ast.Constant) and a.value == "get_next_stream_item" for a in c.args)]
+    in_loop = [c for c in fetches if enclosing_loops(c, nx.node)]
+    retry_h = []
+    for c in fetches:
+        for t, part in enclosing_trys(c, nx.node):
+            if part != "body":
+                continue
+            for h in t.handlers:
+                classes = [ctx.escape.class_of_expr(x, nx) for x in (h.type.elts if isinstance(h.type, ast.Tuple) else [h.type])] if h.type is not None else ["builtins.BaseException"]
+                catches_comm = any(cl and (ctx.escape.is_sub(cl, "Pyro5.errors.CommunicationError") or ctx.escape.is_sub("Pyro5.errors.CommunicationError", cl)) for cl in classes)
+                if catches_comm and not isinstance(h.body[-1], ast.Raise):
+                    retry_h.append(h)
+    R.check(len(fetches) == 1 and not in_loop and not retry_h, "C10-R6", "__next__|one-fetch-per-item", "one __next__ sends exactly one get_next_stream_item; a communication error is not retried",
+            nx.loc(fetches[0]) if fetches else nx.loc(),
+            "the item fetch is %s: when a reply is lost after the server advanced its iterator, the retry returns the FOLLOWING item and one item silently disappears from the stream"
+            % ("inside a loop" if in_loop else ("under a handler that swallows communication errors" if retry_h else "sent %d times" % len(fetches))))
     hk_sites = {g.qualname for g, c in ctx.cg.callers_of("Pyro5.server.Daemon._housekeeping")}
     need = {"Pyro5.svr_threads.Housekeeper.run", "Pyro5.svr_multiplex.SocketServer_Multiplex.events", "Pyro5.svr_multiplex.SocketServer_Multiplex.loop",
             "Pyro5.svr_existingconn.SocketServer_ExistingConnection.loop"}
